@@ -64,7 +64,9 @@ type pageCfg struct {
 // Enable each bottom-up → [Enable AT], each step waiting for its ack, traffic
 // may be in flight. Mode "quiesce" (the idiom of acceptancetests/pagemigration):
 // the driver stops issuing and waits until nothing is outstanding, then Pause
-// each cache → Invalidate each → Enable each.
+// each cache → Invalidate each → Enable each. Mode "pause": the same Pause →
+// Invalidate → Enable sequence but on a busy stack (what CONTROL_PROTOCOL.md
+// literally allows: "Component must be paused or drained first").
 type invCfg struct {
 	Mode    string   `json:"mode"`
 	DrainAT bool     `json:"drain_at,omitempty"`
@@ -167,7 +169,7 @@ func (c *c25Case) validate() error {
 			}
 			frames[o.Frame] = true
 		case "inv":
-			if o.Inv.Mode != "drain" && o.Inv.Mode != "quiesce" {
+			if o.Inv.Mode != "drain" && o.Inv.Mode != "quiesce" && o.Inv.Mode != "pause" {
 				return fmt.Errorf("op %d inv mode", i)
 			}
 		case "fence":
